@@ -217,10 +217,16 @@ class RSync:
             and not self._sourcedir.startswith("\\\\?\\")
         ):
             sourcedir = "\\\\?\\" + self._sourcedir
-        try:
-            relpath = os.path.relpath(linkpoint, sourcedir)
-        except ValueError:
-            relpath = None
+        relpath = None
+        if os.path.isabs(linkpoint):
+            # only absolute links can point into the source tree "by name";
+            # a relative link is sent as is and stays valid at the
+            # corresponding place (classifying it via relpath() would
+            # resolve it against the caller's working directory)
+            try:
+                relpath = os.path.relpath(linkpoint, sourcedir)
+            except ValueError:
+                relpath = None
         if (
             relpath is not None
             and relpath not in (os.curdir, os.pardir)
